@@ -184,7 +184,7 @@ impl<M: Math> AdaptStrategy<M> for ExternalTransformAdaptation {
     ) -> Result<(), NutsError> {
         hamiltonian.init_transformation(rng, math, position, self.chain)?;
         self.step_size
-            .init(math, options, hamiltonian, position, rng)?;
+            .init(math, options, hamiltonian, position, None, rng)?;
         Ok(())
     }
 
